@@ -84,8 +84,10 @@ def d_tasks(msgs, tier):
             l1 = {0, 1, sn - 1, sn, sn + 1, se, 255}
             if heavy:
                 first = min(f.off for f in strs)
-                l2 = set(range(0, first + 3)) | {se + 1 if prod <= 4096 else 0}
-                l1 = {0, 1, sn - 1, sn + 1} | ({sn} if prod <= 4096 else set())
+                # (the full length was tried for types with <= 4096 NUL-position combinations: those tasks alone ran for
+                # more than an hour, so string-heavy types keep the lengths that end before / inside the first string)
+                l2 = set(range(0, first + 3))
+                l1 = {0, 1, sn - 1, sn + 1}
             ks = [1, 7]
         for n in sorted(x for x in l1 if 0 <= x):
             ts.append(Task('verifHarness_D_' + m.go, [0, n, 0, 0], pkg=m.pkgdir, group=m.pkgdir))
